@@ -90,3 +90,14 @@ package peer
 //@ census[C07] (*FrameWriter).Write in (*Connection).WriteFrame, (*Handshaker).dialerHandshake, (*Handshaker).listenerHandshake
 //@ census[C07] transport.Stream.Write in -
 //@ census[C07] io.Writer.Write in -
+
+// Frame contracts for callers in package agent: sending a frame touches only the
+// connection's activity timestamp (the transport write is an external effect).
+
+//@ func (*Connection).WriteFrame
+//@ prop C07
+//@ modifies c.lastActivity
+
+//@ func (*Manager).SendToPeer
+//@ prop C07
+//@ modifies allof(m.peers[peerID].lastActivity)
